@@ -49,6 +49,8 @@ def cells(tier, seed):
                             allc.append(c)
     n = 50 if tier == "quick" else 400
     res = [c for c in core if _valid(c)] + rng.sample(allc, n)
+    # stored type order: every third cell (and two core cells) builds its multi-images with the types out of sorted order
+    res = [dict(c, rev=True) if (i % 3 == 1) else c for i, c in enumerate(res)]
     res.append({"xhair": True, "T": 0, "p": 0, "f": 0, "dt": 0, "s": 0, "ds": 0, "const": "none", "traj": 0})
     return res
 
@@ -81,15 +83,17 @@ def run_cell(cfg, cx):
     meta = {}
 
     def run(dy, co):
-        md = geom.MultiImage(dict(dy), D, flags)
-        mc = geom.MultiImage(dict(co), D, flags)
+        # (dicts that cross the trace boundary come back with sorted keys: the stored order is imposed here, inside the trace)
+        korder = (lambda d: sorted(d, reverse=True)) if cfg.get("rev") else (lambda d: sorted(d))
+        md = geom.MultiImage({kp: dy[kp] for kp in korder(dy)}, D, flags)
+        mc = geom.MultiImage({kp: co[kp] for kp in korder(co)}, D, flags)
         fn = gdata.batch_time_series if traj else gdata.times_series_to_multi_images
         X, Y = fn(md, mc, T, p, f, s, dt, ds)
         meta.update(xk=list(X.keys()), yk=list(Y.keys()), D=(X.D, Y.D), t=(X.is_torus, Y.is_torus))
         return dict(X.data), dict(Y.data)
 
     X, Y = I.sym_call(run, dyn, con)
-    ckey = f"T={T}:p={p}:f={f}:dt={dt}:s={s}:ds={ds}:const={cfg['const']}:traj={traj}"
+    ckey = f"T={T}:p={p}:f={f}:dt={dt}:s={s}:ds={ds}:const={cfg['const']}:traj={traj}" + (":rev" if cfg.get("rev") else "")
     W = T - s - (p + f - 1) * dt
 
     def pool(a, nlead):
